@@ -75,7 +75,9 @@ CLAIMED.update({
             "requests, with symbolic real values, symbolic request times, concrete irregular as well as fully symbolic "
             "gaps and a symbolic step position in [0,1], z3 refutes 'delivered != definition' on every feasible path and "
             "shows that refusals coincide with requests outside the published range; the definition is built over all "
-            "publications, so buffer clearing cannot matter. Reals stand in for floats.",
+            "publications, so buffer clearing cannot matter. An inductive step (one request or publication from an arbitrary "
+            "buffer state satisfying the clearing invariant) extends this to histories of any length. Reals stand in for "
+            "floats.",
             "DESIGN.md section 4, C11"),
     "C13": (LINK,
             "For chains of 1-3 DelayFixed/DelayToPull(n<=3)/DelayToPush adapters mixed with Scale, symbolic delays, gaps and "
@@ -102,7 +104,9 @@ CLAIMED.update({
             "and symbolic strictly increasing pull times over concrete irregular gaps: z3 (nonlinear real arithmetic) "
             "refutes 'delivered != exact integral of the interpolant' on every path, the partition independence against "
             "a twin adapter, and 'average outside the range of contributing values'; fully symbolic gaps only in the "
-            "thorough tier, where 'unknown' answers are counted and excluded.",
+            "thorough tier, where 'unknown' answers are counted and excluded. An inductive step (one pull from an arbitrary "
+            "adapter state: previous pull times and buffer satisfying the clearing invariant) covers histories of any "
+            "length for the integral claim.",
             "DESIGN.md section 4, C12"),
 })
 
